@@ -5,6 +5,7 @@ import (
 	"math"
 	"math/big"
 	"reflect"
+	"strings"
 
 	"github.com/elastic/go-structform/gotype"
 	"pgregory.net/rapid"
@@ -213,6 +214,14 @@ func (r *renderer) number(v model.V) model.Ev {
 				fits = append(fits, ik.k)
 			}
 		}
+		if r.route == "direct" && r.perturb && v.N.IsInt64() && v.N.Int64() >= -(1<<24) && v.N.Int64() <= 1<<24 && rapid.IntRange(0, 5).Draw(r.t, "numf") == 0 {
+			// an integral float holds the number too (direct delivery only: the
+			// text formats would spell it as an integer again)
+			if rapid.Bool().Draw(r.t, "numf32") {
+				return model.Ev{K: model.KF32, F: uint64(math.Float32bits(float32(v.N.Int64())))}
+			}
+			return model.Ev{K: model.KF64, F: math.Float64bits(float64(v.N.Int64()))}
+		}
 		return intEvent(rapid.SampledFrom(fits).Draw(r.t, "numk"), v.N)
 	}
 	f := v.Float()
@@ -392,6 +401,7 @@ func enumC13(emit func(c any) bool) {
 				}
 				ev := intEvent(ik.k, n)
 				scalar := gomodel.TypeDesc{Kind: tk}
+				user := gomodel.TypeDesc{Kind: "pool", Pool: "UP" + strings.ToUpper(tk[:1]) + tk[1:]}
 				shapes := []struct {
 					td  gomodel.TypeDesc
 					evs []model.Ev
@@ -401,6 +411,11 @@ func enumC13(emit func(c any) bool) {
 						[]model.Ev{{K: model.KObjStart, L: -1}, {K: model.KKey, S: []byte("f")}, ev, {K: model.KObjEnd}}},
 					{gomodel.TypeDesc{Kind: "slice", Elem: &scalar}, []model.Ev{{K: model.KArrStart, L: 2}, ev, ev, {K: model.KArrEnd}}},
 					{gomodel.TypeDesc{Kind: "map", Elem: &scalar}, []model.Ev{{K: model.KObjStart, L: 1}, {K: model.KKeyRef, S: []byte("k")}, ev, {K: model.KObjEnd}}},
+					// the same conversions through the primitive USER unfolder of that kind
+					{user, []model.Ev{ev}},
+					{gomodel.TypeDesc{Kind: "slice", Elem: &gomodel.TypeDesc{Kind: "ptr", Elem: &user}}, []model.Ev{{K: model.KArrStart, L: -1}, ev, {K: model.KNil}, ev, {K: model.KArrEnd}}},
+					{gomodel.TypeDesc{Kind: "struct", Fields: []gomodel.FieldDesc{{Name: "F", Type: user}, {Name: "G", Type: gomodel.TypeDesc{Kind: "map", Elem: &user}}}},
+						[]model.Ev{{K: model.KObjStart, L: -1}, {K: model.KKey, S: []byte("g")}, {K: model.KObjStart, L: 1}, {K: model.KKeyRef, S: []byte("k")}, ev, {K: model.KObjEnd}, {K: model.KKey, S: []byte("f")}, ev, {K: model.KObjEnd}}},
 				}
 				for i := range shapes {
 					if !emit(&C13Case{Mode: "typed", Type: &shapes[i].td, Evs: shapes[i].evs, Route: "direct", Prefill: true, Note: "conversion matrix"}) {
@@ -422,6 +437,10 @@ func enumC13(emit func(c any) bool) {
 				if !emit(&C13Case{Mode: "typed", Type: &td, Evs: []model.Ev{ev}, Route: "direct", Note: "conversion matrix (float event)"}) {
 					return
 				}
+				ud := gomodel.TypeDesc{Kind: "pool", Pool: "UP" + strings.ToUpper(tk[:1]) + tk[1:]}
+				if !emit(&C13Case{Mode: "typed", Type: &ud, Evs: []model.Ev{ev}, Route: "direct", Note: "conversion matrix (float event, user unfolder)"}) {
+					return
+				}
 			}
 		}
 	}
@@ -430,7 +449,7 @@ func enumC13(emit func(c any) bool) {
 func init() {
 	register(&Property{
 		ID:            "C13",
-		Rule:          "(a) generic: gen.Stream (strings/keys by value or by reference, announced/unknown lengths, element-type hints, extended events) into *interface{}; oracle = independently built generic Go value (typed slices/maps where a BaseType is announced, last duplicate wins), compared with exact Go types. (b) typed: generated supported Go type and value, rendered from the fold model as a PERTURBED stream — every number through any numeric event kind that holds it (all integer widths, float32<->float64, integers for integral floats), strings/keys by value or reference, members permuted, members omitted, scalar members duplicated, unknown members of every shape (scalars, by-reference strings, nested objects with keys, arrays, typed arrays) at drawn positions and depths — delivered directly or through the json/ubjson/cborl encoder+parser into a fresh or sentinel-prefilled target; oracle = reference model of assignment (gomodel.Assign) applied to the tree of the very same stream, every event method must return nil, unfolder stacks idle. Deterministic part: the full numeric conversion matrix (11 integer event kinds + 2 float kinds x 12 numeric target kinds x boundary values that fit) as scalar target, struct field, slice element and map value. non-trivial = at least one unknown member or one width conversion (generic mode: more than one event); distinct by case hash",
+		Rule:          "(a) generic: gen.Stream (strings/keys by value or by reference, announced/unknown lengths, element-type hints, extended events) into *interface{}; oracle = independently built generic Go value (typed slices/maps where a BaseType is announced, last duplicate wins), compared with exact Go types. (b) typed: generated supported Go type and value, rendered from the fold model as a PERTURBED stream — every number through any numeric event kind that holds it (all integer widths, float32<->float64, integers for integral floats, integral floats for small integers on direct delivery), strings/keys by value or reference, members permuted, members omitted, scalar members duplicated, unknown members of every shape (scalars, by-reference strings, nested objects with keys, arrays, typed arrays) at drawn positions and depths — delivered directly or through the json/ubjson/cborl encoder+parser into a fresh or sentinel-prefilled target; oracle = reference model of assignment (gomodel.Assign) applied to the tree of the very same stream, every event method must return nil, unfolder stacks idle. Deterministic part: the full numeric conversion matrix (11 integer event kinds + 2 float kinds x 12 numeric target kinds x boundary values that fit) as scalar target, struct field, slice element and map value, and through the primitive user unfolder of the target kind (as target, []*T element, struct field and map value). non-trivial = at least one unknown member or one width conversion (generic mode: more than one event); distinct by case hash",
 		New:           func() any { return &C13Case{} },
 		Draw:          drawC13,
 		Check:         checkC13,
